@@ -42,3 +42,267 @@ fn reconnection_never_removes_a_connected_peer() {
         for (k, v) in by_key_before.iter() { if *k != key && pc.address_to_peers.get(k) != Some(v) { witness(format!("the by-key entry of another key changed: {}", what)); } }
     }
 }
+
+// ---------------------------------------------------------------------------------------------------------------------
+// network-level twins: the real Network / Peer / PeerCollection code between honest nodes and an attacker that holds no
+// key and can only open connections and move observed messages around (it cannot forge signatures)
+mod net {
+    use super::*;
+    use crate::core::consensus::blockchain::Blockchain;
+    use crate::core::consensus::peers::peer_service::PeerService;
+    use crate::core::consensus::wallet::Wallet;
+    use crate::core::defs::{BlockId, SaitoHash};
+    use crate::core::io::interface_io::{InterfaceEvent, InterfaceIO};
+    use crate::core::io::network::Network;
+    use crate::core::msg::handshake::{HandshakeChallenge, HandshakeResponse};
+    use crate::core::msg::message::Message;
+    use crate::core::process::keep_time::{KeepTime, Timer};
+    use crate::core::process::version::Version;
+    use crate::core::util::configuration::{BlockchainConfig, Configuration, ConsensusConfig, PeerConfig, Server};
+    use crate::core::util::crypto::generate_keys;
+    use crate::core::util::serialize::Serialize;
+    use async_trait::async_trait;
+    use std::io::{Error, ErrorKind};
+    use std::sync::{Arc, Mutex};
+    use tokio::sync::RwLock;
+
+    /// IO boundary double: records what the node sends and which connections it drops
+    #[derive(Clone, Debug, Default)]
+    pub struct WireTap { pub sent: Arc<Mutex<Vec<(u64, Vec<u8>)>>>, pub dropped: Arc<Mutex<Vec<u64>>> }
+    #[async_trait]
+    impl InterfaceIO for WireTap {
+        async fn send_message(&self, peer_index: u64, buffer: &[u8]) -> Result<(), Error> { self.sent.lock().unwrap().push((peer_index, buffer.to_vec())); Ok(()) }
+        async fn send_message_to_all(&self, _b: &[u8], _e: Vec<u64>) -> Result<(), Error> { Ok(()) }
+        async fn connect_to_peer(&mut self, _u: String, _p: PeerIndex) -> Result<(), Error> { Ok(()) }
+        async fn disconnect_from_peer(&self, peer_index: u64) -> Result<(), Error> { self.dropped.lock().unwrap().push(peer_index); Ok(()) }
+        async fn fetch_block_from_peer(&self, _h: SaitoHash, _p: u64, _u: &str, _b: BlockId) -> Result<(), Error> { Ok(()) }
+        async fn write_value(&self, _k: &str, _v: &[u8]) -> Result<(), Error> { Ok(()) }
+        async fn append_value(&mut self, _k: &str, _v: &[u8]) -> Result<(), Error> { Ok(()) }
+        async fn flush_data(&mut self, _k: &str) -> Result<(), Error> { Ok(()) }
+        async fn read_value(&self, _k: &str) -> Result<Vec<u8>, Error> { Err(Error::from(ErrorKind::NotFound)) }
+        async fn load_block_file_list(&self) -> Result<Vec<String>, Error> { Ok(vec![]) }
+        async fn is_existing_file(&self, _k: &str) -> bool { false }
+        async fn remove_value(&self, _k: &str) -> Result<(), Error> { Ok(()) }
+        fn get_block_dir(&self) -> String { "./data/blocks/".to_string() }
+        fn get_checkpoint_dir(&self) -> String { "./data/checkpoints/".to_string() }
+        fn ensure_block_directory_exists(&self, _d: &str) -> Result<(), Error> { Ok(()) }
+        async fn process_api_call(&self, _b: Vec<u8>, _m: u32, _p: PeerIndex) {}
+        async fn process_api_success(&self, _b: Vec<u8>, _m: u32, _p: PeerIndex) {}
+        async fn process_api_error(&self, _b: Vec<u8>, _m: u32, _p: PeerIndex) {}
+        fn send_interface_event(&self, _e: InterfaceEvent) {}
+        async fn save_wallet(&self, _w: &mut Wallet) -> Result<(), Error> { Ok(()) }
+        async fn load_wallet(&self, _w: &mut Wallet) -> Result<(), Error> { Ok(()) }
+        fn get_my_services(&self) -> Vec<PeerService> { vec![] }
+    }
+    impl WireTap {
+        /// the handshake messages the node has sent on one connection, oldest first
+        pub fn handshake_messages_to(&self, peer_index: u64) -> Vec<Message> {
+            self.sent.lock().unwrap().iter().filter(|(i, _)| *i == peer_index)
+                .filter_map(|(_, b)| match Message::deserialize(b.clone()) { Ok(m @ Message::HandshakeChallenge(_)) | Ok(m @ Message::HandshakeResponse(_)) => Some(m), _ => None }).collect()
+        }
+        pub fn last_challenge_to(&self, peer_index: u64) -> Option<HandshakeChallenge> {
+            self.handshake_messages_to(peer_index).into_iter().rev().find_map(|m| if let Message::HandshakeChallenge(c) = m { Some(c) } else { None })
+        }
+        pub fn last_response_to(&self, peer_index: u64) -> Option<HandshakeResponse> {
+            self.handshake_messages_to(peer_index).into_iter().rev().find_map(|m| if let Message::HandshakeResponse(r) = m { Some(r) } else { None })
+        }
+    }
+    #[derive(Debug)]
+    struct FullNodeConfig { peers: Vec<PeerConfig>, blockchain: BlockchainConfig }
+    impl Configuration for FullNodeConfig {
+        fn get_server_configs(&self) -> Option<&Server> { None }
+        fn get_peer_configs(&self) -> &Vec<PeerConfig> { &self.peers }
+        fn get_blockchain_configs(&self) -> &BlockchainConfig { &self.blockchain }
+        fn get_block_fetch_url(&self) -> String { "http://node.example:12101".to_string() }
+        fn is_spv_mode(&self) -> bool { false }
+        fn is_browser(&self) -> bool { false }
+        fn replace(&mut self, _c: &dyn Configuration) {}
+        fn get_consensus_config(&self) -> Option<&ConsensusConfig> { None }
+    }
+    struct Clock {}
+    impl KeepTime for Clock { fn get_timestamp_in_ms(&self) -> Timestamp { 1_700_000_000_000 } }
+
+    pub struct Node {
+        pub network: Network, pub tap: WireTap, pub wallet_lock: Arc<RwLock<Wallet>>, pub config_lock: Arc<RwLock<dyn Configuration + Send + Sync>>,
+        pub blockchain_lock: Arc<RwLock<Blockchain>>, pub peer_lock: Arc<RwLock<PeerCollection>>, pub key: SaitoPublicKey,
+    }
+    impl Node {
+        pub async fn new(static_peers: Vec<PeerConfig>) -> Node {
+            let keys = generate_keys();
+            let wallet_lock = Arc::new(RwLock::new(Wallet::new(keys.1, keys.0)));
+            { let mut w = wallet_lock.write().await; if !w.core_version.is_set() { w.core_version = Version::new(0, 2, 0); } }
+            let key = wallet_lock.read().await.public_key;
+            let config_lock: Arc<RwLock<dyn Configuration + Send + Sync>> = Arc::new(RwLock::new(FullNodeConfig { peers: static_peers, blockchain: BlockchainConfig::default() }));
+            let blockchain_lock = Arc::new(RwLock::new(Blockchain::new(wallet_lock.clone(), 100, 0, 60)));
+            let peer_lock = Arc::new(RwLock::new(PeerCollection::default()));
+            let tap = WireTap::default();
+            let mut network = Network::new(Box::new(tap.clone()), peer_lock.clone(), wallet_lock.clone(), config_lock.clone(),
+                Timer { time_reader: Arc::new(Clock {}), hasten_multiplier: 1, start_time: 0 });
+            network.initialize_static_peers(config_lock.clone()).await;
+            Node { network, tap, wallet_lock, config_lock, blockchain_lock, peer_lock, key }
+        }
+        pub async fn open(&mut self, conn: PeerIndex) { self.network.handle_new_peer(conn, None).await; }
+        pub async fn challenge(&mut self, conn: PeerIndex, c: HandshakeChallenge) {
+            self.network.handle_handshake_challenge(conn, c, self.wallet_lock.clone(), self.config_lock.clone()).await;
+        }
+        pub async fn response(&mut self, conn: PeerIndex, r: HandshakeResponse) {
+            self.network.handle_handshake_response(conn, r, self.wallet_lock.clone(), self.blockchain_lock.clone(), self.config_lock.clone()).await;
+        }
+        pub async fn drop_connection(&mut self, conn: PeerIndex) { self.network.handle_peer_disconnect(conn, crate::core::io::network::PeerDisconnectType::InternalDisconnect).await; }
+        pub async fn connected_under(&self, conn: PeerIndex) -> Option<SaitoPublicKey> {
+            let peers = self.peer_lock.read().await;
+            peers.find_peer_by_index(conn).and_then(|p| if matches!(p.peer_status, PeerStatus::Connected) { p.public_key } else { None })
+        }
+        pub async fn entry_of(&self, key: &SaitoPublicKey) -> Option<PeerIndex> { self.peer_lock.read().await.address_to_peers.get(key).copied() }
+    }
+    fn static_peer() -> PeerConfig { PeerConfig { host: "node-a.example".to_string(), port: 12101, protocol: "http".to_string(), synctype: "full".to_string() } }
+
+    /// the honest three-message handshake: B dialled A (connection `at_a` at A, static peer `at_b` at B)
+    pub async fn honest_handshake(a: &mut Node, at_a: PeerIndex, b: &mut Node, at_b: PeerIndex) {
+        a.open(at_a).await;
+        b.open(at_b).await;
+        let c = a.tap.last_challenge_to(at_a).expect("A challenges an incoming connection");
+        b.challenge(at_b, c).await;
+        let r = b.tap.last_response_to(at_b).expect("B answers the challenge");
+        a.response(at_a, r).await;
+        let r2 = a.tap.last_response_to(at_a).expect("A sends the second response");
+        b.response(at_b, r2).await;
+    }
+
+    /// C17 ("reflected"): the node's own signature, obtained by sending the node its own challenge on a second connection,
+    /// never authenticates a connection — under any key
+    #[tokio::test]
+    #[serial_test::serial]
+    async fn reflected_response_never_connects() {
+        let mut a = Node::new(vec![]).await;
+        let (x, y) = (11u64, 12u64);
+        a.open(x).await;
+        a.open(y).await;
+        let c = a.tap.last_challenge_to(x).expect("A challenges X");
+        a.challenge(y, HandshakeChallenge { challenge: c.challenge }).await;
+        let reflected = a.tap.last_response_to(y).expect("A answers on Y");
+        a.response(x, reflected).await;
+        if let Some(k) = a.connected_under(x).await {
+            witness(format!("a party holding no key opened connections X={} and Y={}, sent the node the challenge it had issued on X back on Y, and replayed the node's own answer on X: X is now Connected under key {} (the node's own key: {}); by-key entry of that key = {:?}",
+                x, y, hex::encode(k), k == a.key, a.entry_of(&k).await));
+        }
+        if a.entry_of(&a.key).await.is_some() { witness("the node's own key has an entry in its peer table after a reflected response".to_string()); }
+    }
+
+    /// C17 (peer table): after a peer drops and authenticates again on a new connection, the by-key index answers with the
+    /// new connection
+    #[tokio::test]
+    #[serial_test::serial]
+    async fn reconnected_peer_is_found_by_its_key() {
+        let mut a = Node::new(vec![]).await;
+        let mut b = Node::new(vec![static_peer()]).await;
+        honest_handshake(&mut a, 1, &mut b, 1).await;
+        assert_eq!(a.connected_under(1).await, Some(b.key), "harness: the honest handshake authenticates B at A");
+        assert_eq!(a.entry_of(&b.key).await, Some(1));
+        a.drop_connection(1).await;
+        b.drop_connection(1).await;
+        // B dials again: a new connection index at A, the same static peer object at B
+        honest_handshake(&mut a, 2, &mut b, 1).await;
+        let conn = a.connected_under(2).await;
+        let entry = a.entry_of(&b.key).await;
+        if conn == Some(b.key) && entry != Some(2) {
+            witness(format!("peer B authenticated at A on connection 1, dropped, and authenticated again on connection 2: connection 2 is Connected under B's key but the by-key index answers {:?} for it (find_peer_by_address finds {})",
+                entry, if a.peer_lock.read().await.find_peer_by_address(&b.key).is_some() { "a peer" } else { "nothing" }));
+        }
+        assert_eq!(conn, Some(b.key), "harness: the second honest handshake authenticates B at A");
+    }
+
+    /// C17 (last clause): a response honest B produced on another connection, carried over by a party holding no key,
+    /// must not take the by-key entry away from B's authenticated connection
+    #[tokio::test]
+    #[serial_test::serial]
+    async fn relayed_response_leaves_the_authenticated_peer_its_key_entry() {
+        let mut a = Node::new(vec![]).await;
+        let mut b = Node::new(vec![static_peer()]).await;
+        honest_handshake(&mut a, 1, &mut b, 1).await;
+        assert_eq!(a.connected_under(1).await, Some(b.key), "harness: the honest handshake authenticates B at A");
+        let (at_a, at_b) = (2u64, 7u64);
+        a.open(at_a).await;
+        b.open(at_b).await;
+        let c = a.tap.last_challenge_to(at_a).expect("A challenges the new connection");
+        b.challenge(at_b, HandshakeChallenge { challenge: c.challenge }).await;
+        let lifted = b.tap.last_response_to(at_b).expect("B answers");
+        a.response(at_a, lifted).await;
+        let entry = a.entry_of(&b.key).await;
+        if entry != Some(1) {
+            witness(format!("B is authenticated at A on connection 1; a party holding no key opened connection {} to A and connection {} to B, forwarded A's challenge to B and carried B's answer back: the by-key entry of B's key at A moved from connection 1 to {:?} (connection {} is Connected under {:?})",
+                at_a, at_b, entry, at_a, a.connected_under(at_a).await.map(hex::encode)));
+        }
+    }
+
+    /// C17, bounded stand-in: random schedules of an attacker that opens connections to two honest nodes and moves every
+    /// handshake message it has seen to any connection, as a challenge or as a response. Checked after every step: no
+    /// connection is authenticated under the key of the node it ends at; a connection is authenticated under an honest
+    /// node's key only if that node signed the challenge pending on it (signatures are not forged); a completed handshake
+    /// is answered by the by-key index with a connection authenticated under that key
+    #[tokio::test]
+    #[serial_test::serial]
+    async fn attacker_schedules_never_authenticate_without_a_signature_by_the_key() {
+        let mut rng = Rng::from_env();
+        let rounds = std::env::var("VERIF_ROUNDS").ok().and_then(|x| x.parse::<u64>().ok()).unwrap_or(400);
+        for round in 0..rounds {
+            let mut nodes = vec![Node::new(vec![]).await, Node::new(vec![]).await];
+            let mut conns: Vec<Vec<PeerIndex>> = vec![vec![], vec![]];
+            let mut seen_challenges: Vec<SaitoHash> = vec![];
+            let mut seen_responses: Vec<Vec<u8>> = vec![];
+            let mut log: Vec<String> = vec![];
+            for step in 0..(6 + rng.below(14)) {
+                let n = rng.below(2) as usize;
+                match rng.below(4) {
+                    0 => {
+                        let c = 10 + conns[n].len() as u64;
+                        nodes[n].open(c).await;
+                        conns[n].push(c);
+                        log.push(format!("open {} at node {}", c, n));
+                    }
+                    1 if !conns[n].is_empty() && !seen_challenges.is_empty() => {
+                        let c = conns[n][rng.below(conns[n].len() as u64) as usize];
+                        let ch = seen_challenges[rng.below(seen_challenges.len() as u64) as usize];
+                        nodes[n].challenge(c, HandshakeChallenge { challenge: ch }).await;
+                        log.push(format!("challenge {} on {} at node {}", hex::encode(&ch[0..4]), c, n));
+                    }
+                    2 if !conns[n].is_empty() && !seen_responses.is_empty() => {
+                        let c = conns[n][rng.below(conns[n].len() as u64) as usize];
+                        let r = HandshakeResponse::deserialize(&seen_responses[rng.below(seen_responses.len() as u64) as usize]).unwrap();
+                        log.push(format!("response signed by node {} on {} at node {}", if r.public_key == nodes[0].key { 0 } else { 1 }, c, n));
+                        nodes[n].response(c, r).await;
+                    }
+                    _ if !conns[n].is_empty() => {
+                        let c = conns[n][rng.below(conns[n].len() as u64) as usize];
+                        nodes[n].drop_connection(c).await;
+                        log.push(format!("drop {} at node {}", c, n));
+                    }
+                    _ => {}
+                }
+                // the attacker reads everything the nodes have sent so far
+                seen_challenges.clear();
+                seen_responses.clear();
+                for m in 0..2 { for c in conns[m].iter() { for msg in nodes[m].tap.handshake_messages_to(*c) { match msg {
+                    Message::HandshakeChallenge(ch) => seen_challenges.push(ch.challenge),
+                    Message::HandshakeResponse(r) => { seen_challenges.push(r.challenge); seen_responses.push(r.serialize()); }
+                    _ => {}
+                } } } }
+                for m in 0..2 {
+                    for c in conns[m].iter() {
+                        if let Some(k) = nodes[m].connected_under(*c).await {
+                            if k == nodes[m].key { witness(format!("round {} step {}: connection {} at node {} is authenticated under that node's OWN key; schedule: {:?}", round, step, c, m, log)); }
+                            let peers = nodes[m].peer_lock.read().await;
+                            let p = peers.find_peer_by_index(*c).unwrap();
+                            if p.challenge_for_peer.is_none() {
+                                match peers.find_peer_by_address(&k) {
+                                    Some(q) if q.public_key == Some(k) => {}
+                                    other => witness(format!("round {} step {}: connection {} at node {} completed a handshake under a key the by-key index answers with {:?}; schedule: {:?}", round, step, c, m, other.map(|q| q.index), log)),
+                                }
+                            }
+                        }
+                    }
+                }
+            }
+        }
+    }
+}
